@@ -196,7 +196,36 @@ func (e *Exec) checkDecreases(li *loopInfo, reach string, h *Heap, at *ssa.Basic
 
 func (e *Exec) noVariant(li *loopInfo) {
 	s := fmt.Sprintf("loop %d of %s has no variant (termination not proved)", li.ord, qualName(e.fn))
+	if mt := mapRangeOf(li); mt != nil && li.modset != nil && !li.modset.all {
+		// structural rule, no obligation: a range over a map visits each entry present at entry at most once, so the
+		// loop ends provided nothing inside it (callees included: their modsets are merged into the loop's) inserts
+		// into a map of the same key and value sorts. Deletions do not matter. Termination of the body itself
+		// rests on the callees, as for every other variant.
+		u := e.u()
+		md, _ := u.mapVars(u.sortOf(mt.Key()), u.sortOf(mt.Elem()))
+		if _, written := li.modset.vars[md]; !written {
+			s = fmt.Sprintf("loop %d of %s ranges over a map and nothing in the loop (callees included, by mod-set) inserts into a map of that key/value type: finite by the semantics of range, no variant needed (structural rule, not an SMT obligation)", li.ord, qualName(e.fn))
+		}
+	}
 	e.vc.noVariant[s] = true
+}
+
+// mapRangeOf returns the map type a loop ranges over when its header is the `next` of a map iterator that was
+// created outside the loop, and nil otherwise.
+func mapRangeOf(li *loopInfo) *types.Map {
+	for _, ins := range li.header.Instrs {
+		nx, ok := ins.(*ssa.Next)
+		if !ok || nx.IsString {
+			continue
+		}
+		rg, ok := nx.Iter.(*ssa.Range)
+		if !ok || li.body[rg.Block()] {
+			return nil
+		}
+		mt, _ := rg.X.Type().Underlying().(*types.Map)
+		return mt
+	}
+	return nil
 }
 
 func (e *Exec) checkPost(retIdx int, reach string, h *Heap, vals []Term, pos token.Pos, at *ssa.BasicBlock) {
